@@ -52,10 +52,14 @@ LENV = (0, 1, 2, 3, 4, 5, 0xFFFF)
 
 def run(tier, replay=None):
     v = common.Verdict('C06', tier, 'exploration')
+    import logging
+    logging.getLogger().setLevel(logging.ERROR)      # "Unrecognized payload" warnings of the parser are not what is judged here
     rnd = random.Random(common.SEED)
     stats = {'tla_mutations': 0, 'u16_sweeps': 0, 'truncations': 0, 'byte_mutations': 0, 'inner_resealed': 0, 'random': 0, 'structured_random': 0}
     outcomes = {}
     distinct = set()
+
+    key_context = V.make_crypto(128, 2, seed=9)[0]
 
     def go(data, family, ctx=None, crypto=None, spec_verdict=None, both=True):
         ok = True
@@ -63,6 +67,11 @@ def run(tier, replay=None):
             kind, val, lines = V.counted_parse(data, header_only=header_only, crypto=crypto)
             outcomes[kind] = outcomes.get(kind, 0) + 1
             ok = judge(v, data, kind, val, lines, family, ctx, None if header_only else spec_verdict) and ok
+        if crypto is None:
+            # the same octets arriving for an IKE_SA that HAS keys (the receiver's other context: what is allowed in the clear differs, totality does not)
+            kind, val, lines = V.counted_parse(data, header_only=False, crypto=key_context)
+            outcomes['keyed:' + kind] = outcomes.get('keyed:' + kind, 0) + 1
+            ok = judge(v, data, kind, val, lines, family + ' [receiver has keys]', ctx, None) and ok
         distinct.add(hash(data))
         return ok
 
@@ -73,6 +82,15 @@ def run(tier, replay=None):
         data = W.enc_header(b'A' * 8, b'B' * 8, m['first'], 2, 0, 34, 0x08, 0, 28 + len(chain)) + chain
         stats['tla_mutations'] += 1
         go(data, 'tla:' + m['kind'], ctx={'at': m['at']}, spec_verdict=m['v'])
+    # (1b) every header of the Wire.tla universe (version nibbles x exchange types x flags x Message IDs) with an empty chain and with one payload that a
+    #      receiver skips: nothing at all behind the header is a message too
+    for m in V.vectors('singles')['msgs']:
+        if not m['ps']:
+            data = bytes(m['b'])
+            stats['tla_headers'] = stats.get('tla_headers', 0) + 2
+            go(data, 'tla:header')
+            skipped = data[:16] + bytes([99]) + data[17:24] + (len(data) + 8).to_bytes(4, 'big') + bytes([0, 0, 0, 8, 1, 2, 3, 4])
+            go(skipped, 'tla:header+skipped')
     # (2) every 16-bit field / every octet of authentic messages of each exchange type
     auth = authentic_messages()
     cr_none = None
@@ -201,7 +219,7 @@ def run(tier, replay=None):
                         f'({t8 / max(t1, 1e-4):.0f} times for 8 times the input)', {'shape': name}, signature={'component': 'parse:superlinear', 'shape': name.split()[0]})
     v.coverage['scaling'] = scaling
     v.coverage.update({'evaluations': sum(outcomes.values()), 'distinct_nontrivial': len(distinct), 'families': stats, 'outcomes': outcomes,
-                       'rule': 'Wire.tla LenMut/NextMut families (chain verdict from ParseChain) + every 16-bit field position of authentic datagrams of each '
+                       'rule': 'Wire.tla LenMut/NextMut families (chain verdict from ParseChain), every header of the universe with an empty / skipped-only chain - all cleartext inputs both without keys and as received by an IKE_SA that has keys + every 16-bit field position of authentic datagrams of each '
                                'exchange set to {0..5, cur-1, cur+1, 0xFFFF} + every truncation + octet mutations {^01, ^80, =00, =FF} + inner chains mutated and '
                                're-sealed with the right keys (and malformed ciphertext lengths) under right / wrong / no keys + raw and structured random strings; '
                                'distinct = distinct byte strings; each judged on outcome class and executed-line budget 4000 + 600*len',
